@@ -14,10 +14,15 @@ VARIABLES bufLen, first, fed, emitted, diverged, tid, l, nfail
 vars == <<bufLen, first, fed, emitted, diverged, tid, l, nfail>>
 C == Traces[tid].cfg
 Ev == Traces[tid].events[l]
-Why == IF Ev.a = "chunk" THEN (IF ~Ev.st THEN "C04_StartedAfterChunk" ELSE "")
+\* a compute_full event (logged by the hooks when the repository's own tests are traced): it does not touch the
+\* streaming state, returns NumFrames(c) frames, and is only legal while no utterance is in progress
+Why == IF Ev.a = "full" THEN (IF Ev.nret # NumFramesP(Ev.c, C.L, C.S) THEN "C02_FrameCount"
+                              ELSE IF Ev.st THEN "C04_FullWhileStarted" ELSE "")
+       ELSE IF Ev.a = "chunk" THEN (IF ~Ev.st THEN "C04_StartedAfterChunk" ELSE "")
        ELSE IF Ev.st THEN "C04_NotStartedAfterFinalize"
        ELSE IF emitted + Ev.nret # NumFramesP(fed, C.L, C.S) THEN "C01_FrameCount" ELSE ""
-ImplOK == IF Ev.a = "chunk"
+ImplOK == IF Ev.a = "full" THEN Ev.p.bl = bufLen /\ Ev.p.ff = first
+          ELSE IF Ev.a = "chunk"
           THEN /\ Ev.nret = ChunkNf(C.L, C.S, C.st, bufLen, first, Ev.c)
                /\ Ev.p.bl = ChunkBufLen(C.L, C.S, C.st, bufLen, first, Ev.c)
                /\ Ev.p.ff = (first /\ Ev.nret = 0)
@@ -27,8 +32,8 @@ Step == /\ tid <= Len(Traces) /\ l <= Len(Traces[tid].events) /\ Why = ""
         /\ IF ~diverged /\ ~ImplOK THEN PrintT(<<"DIVERGED", Traces[tid].tid, l>>) ELSE TRUE
         \* follow the code's own counters so that one divergence is reported once
         /\ bufLen' = Ev.p.bl /\ first' = Ev.p.ff
-        /\ fed' = (IF Ev.a = "chunk" THEN fed + Ev.c ELSE 0)
-        /\ emitted' = (IF Ev.a = "chunk" THEN emitted + Ev.nret ELSE 0)
+        /\ fed' = (IF Ev.a = "chunk" THEN fed + Ev.c ELSE IF Ev.a = "full" THEN fed ELSE 0)
+        /\ emitted' = (IF Ev.a = "chunk" THEN emitted + Ev.nret ELSE IF Ev.a = "full" THEN emitted ELSE 0)
         /\ l' = l + 1 /\ UNCHANGED <<tid, nfail>>
 Advance ==
   /\ tid <= Len(Traces)
